@@ -1128,3 +1128,29 @@ package ring
 //@   rowpre sameOrDisjoint(p1.Coeffs[i], p0.Coeffs[i]) && disjoint(p1.Coeffs[i], buff.Coeffs[0]) && disjoint(p1.Coeffs[i], buff.Coeffs[1]) && disjoint(buff.Coeffs[1], p0.Coeffs[i])
 //@   rowpre disjoint(r.RescaleConstants[L-1], p1.Coeffs[i]) && disjoint(r.RescaleConstants[L-1], buff.Coeffs[1])
 //@   rowpre forall(k, 0, n, p0.Coeffs[i][k] < q)
+
+// ---------------------------------------------------------------------------------------------
+// Serialization, count level (property C08).  For every serializable type: WriteTo reports, on
+// success, exactly the number of bytes the value announces (announced(x): the result of running
+// x.BinarySize() on the same state) and leaves nothing unflushed in the buffered writer
+// (pending(w) == 0); ReadFrom reports, on success, exactly the announced size of the object it
+// rebuilt, whatever the receiver held before.  bsize(x) is the abstract announced size used at
+// call sites.  `nilable`: optional pointer fields of the inputs may be nil.
+// ---------------------------------------------------------------------------------------------
+
+//@ afunc Poly.BinarySize
+//@   trusted definition: bsize(x) is what x.BinarySize() returns, assumed to be a function of the contents of x
+//@   ensures result == bsize(pol) && 0 <= result
+
+//@ afunc Poly.WriteTo
+//@   property C08
+//@   nilable
+//@   gset pending(w) = *
+//@   ensures implies(isnil(err), n == announced(pol))
+//@   ensures implies(isnil(err), pending(w) == 0)
+
+//@ afunc Poly.ReadFrom
+//@   property C08
+//@   nilable
+//@   havoc pol
+//@   ensures implies(isnil(err), n == announced(pol))
